@@ -2,6 +2,7 @@ import AdfObdd.Equivar
 import AdfObdd.Stable
 import AdfObdd.EquivarMore
 import AdfObdd.StableExact
+import AdfObdd.SortProofs
 /-! # C10 — answers do not depend on presentation (fact order, sorting, naming)
 
 A presentation change (reordering the facts, a sort, consistent renaming) is a bijection `p` of the
@@ -136,5 +137,433 @@ example (hl : IsLfp [fun σ => σ 1, fun _ => true] [some true, some true]) :
     ⟨rfl, rfl, fun i hi => by
       have : i = 0 ∨ i = 1 := by simp at hi; omega
       rcases this with h | h <;> subst h <;> simp [sw]⟩ hl
+
+end C10
+
+/-! ## C10, from the parser object: sorting, fact order, renaming — answers as maps from LABELS
+
+The theorems above assume a re-presentation `Renamed p q D D'`. Here it is DERIVED for the
+presentation changes the property names, on the model of the parser object (`Parser6`),
+`AdfParser::varsort_lexi` / `varsort_alphanum` (`SortModel`) and `Adf::from_parser` (`FromParser`):
+* sorting: `namelist` is replaced by a permutation of itself and the indices are regenerated
+  (`PState.resort`; `PState.sortBy`/`varsortLexi`, `IsVarsortAlphanum` are instances),
+* any permutation of the facts, the `s(..)` facts included,
+* consistent (injective) renaming of the labels.
+Answers are compared as maps from label to truth value (`labelled names v`). Whitespace does not
+reach this level: two texts with the same facts give the same parser object (C08). -/
+namespace C10
+open ParserM FromParser SortModel
+
+/-- the answers the driver computes on a built framework with `n` statements -/
+def groundedVec (n : Nat) (s : Store) (ac : List Nat) : I3 :=
+  (groundedLoop StoreRA (n + 1) s ac).2.map storeIsConst
+def completeVecs (n : Nat) (s : Store) (ac : List Nat) : List I3 :=
+  (completeAll s n ac).2.2.map (fun x => x.map storeIsConst)
+def stableVecs (n : Nat) (s : Store) (ac : List Nat) : List I3 :=
+  (stableAll s n ac).2.map (fun x => x.map storeIsConst)
+
+/-- the four statements about label maps, for two built frameworks with name lists `xs` / `ys`:
+same grounded map; same set of complete maps; same set of stable maps; same set of two-valued maps
+(two-valued model = complete and total; the nogood search of C05 returns exactly those) -/
+def SameLabelMaps (xs ys : List Label) (s : Store) (ac : List Nat) (s' : Store) (ac' : List Nat) : Prop :=
+  labelled xs (groundedVec xs.length s ac) = labelled ys (groundedVec ys.length s' ac') ∧
+  (∀ m, m ∈ (completeVecs xs.length s ac).map (labelled xs) ↔
+        m ∈ (completeVecs ys.length s' ac').map (labelled ys)) ∧
+  (∀ m, m ∈ (stableVecs xs.length s ac).map (labelled xs) ↔
+        m ∈ (stableVecs ys.length s' ac').map (labelled ys)) ∧
+  (∀ m, (∃ v ∈ completeVecs xs.length s ac, TotalI v ∧ labelled xs v = m) ↔
+        (∃ v' ∈ completeVecs ys.length s' ac', TotalI v' ∧ labelled ys v' = m))
+
+theorem complete_len {n : Nat} {s : Store} {ac : List Nat} (hw : WF s) (hn : ac.length = n)
+    (hv : ∀ t ∈ ac, t < s.nodes.size) {v : I3} (h : v ∈ completeVecs n s ac) : v.length = n :=
+  (((CompleteExact.completeAll_exact s n ac hw hn hv).2.1 v).mp h).1
+
+theorem stable_len {n : Nat} {s : Store} {ac : List Nat} (hw : WF s) (hn : ac.length = n)
+    (hv : ∀ t ∈ ac, t < s.nodes.size) {v : I3} (h : v ∈ stableVecs n s ac) : v.length = n := by
+  have e := (StableExact.stableAll_filter s n ac hw hn hv).2
+  have a := (StableExact.answers_exact s n ac hw hn hv _ (StableExact.verdict_iff (ac.map (eval s)))).2 v
+  simp only [← e] at a
+  exact (a.mp h).1
+
+/-- two built frameworks whose conditions are re-presentations of each other under the renumbering
+between their name lists have the same label maps -/
+theorem label_maps_of_renamed (xs ys : List Label) (nd : xs.Nodup) (hp : xs.Perm ys)
+    (s s' : Store) (ac ac' : List Nat) (hw : WF s) (hw' : WF s')
+    (hn : ac.length = xs.length) (hn' : ac'.length = xs.length)
+    (hv : ∀ t ∈ ac, t < s.nodes.size) (hv' : ∀ t ∈ ac', t < s'.nodes.size)
+    (h : Renamed (reindex xs ys) (reindex ys xs) (ac.map (eval s)) (ac'.map (eval s'))) :
+    SameLabelMaps xs ys s ac s' ac' := by
+  have A := answers_equivariant _ _ s s' xs.length ac ac' hw hw' hn hn' hv hv' h
+  unfold SameLabelMaps
+  rw [← hp.length_eq]
+  refine ⟨labelled_of_renamedI nd hp A.1, ?_, ?_, ?_⟩
+  · intro m
+    simp only [List.mem_map]
+    exact label_maps_of_corr nd hp (· ∈ completeVecs xs.length s ac) (· ∈ completeVecs xs.length s' ac')
+      (fun v => complete_len hw hn hv) (fun v => complete_len hw' hn' hv')
+      (fun v v' hr => (A.2 v v' hr).1) m
+  · intro m
+    simp only [List.mem_map]
+    exact label_maps_of_corr nd hp (· ∈ stableVecs xs.length s ac) (· ∈ stableVecs xs.length s' ac')
+      (fun v => stable_len hw hn hv) (fun v => stable_len hw' hn' hv')
+      (fun v v' hr => (A.2 v v' hr).2) m
+  · intro m
+    have nd' := hp.nodup_iff.mp nd
+    have key := label_maps_of_corr nd hp (fun v => v ∈ completeVecs xs.length s ac ∧ TotalI v)
+      (fun v' => v' ∈ completeVecs xs.length s' ac' ∧ TotalI v')
+      (fun v hv0 => complete_len hw hn hv hv0.1) (fun v hv0 => complete_len hw' hn' hv' hv0.1)
+      (fun v v' hr => by
+        have hr' : RenamedI (reindex ys xs) xs.length v' v :=
+          EquivarMore.RenamedI.symm (reindex_inv nd' hp.symm) (fun j hj => by
+            have := reindex_lt nd' hp.symm (by rw [← hp.length_eq]; exact hj)
+            rw [hp.length_eq]; exact this) hr
+        constructor
+        · rintro ⟨a, b⟩
+          exact ⟨((A.2 v v' hr).1).mp a,
+            totalI_of_renamedI (reindex_inv nd' hp.symm) (fun j hj => by
+              have := reindex_lt nd' hp.symm (by rw [← hp.length_eq]; exact hj)
+              rw [hp.length_eq]; exact this) hr b⟩
+        · rintro ⟨a, b⟩
+          exact ⟨((A.2 v v' hr).1).mpr a,
+            totalI_of_renamedI (reindex_inv nd hp) (fun j hj => reindex_lt nd hp hj) hr' b⟩) m
+    simpa only [and_assoc] using key
+
+/-- for a well-formed ADF `fs` and ANY parser object `st` that presents a permutation `ns'` of the
+declared names (dictionary = position map of `ns'`) with the conditions of `fs`: `st` is built and all
+label maps coincide with those of the parser object as read -/
+theorem presented_label_maps (fs : List Fact) (hwf : WellFormedAdf fs) (st : PState) (ns' : List Label)
+    (hp : ns'.Perm (namesOf fs)) (hP : Presents st ns' (acsOf fs)) (hn : (namesOf fs).length ≤ VBOT) :
+    ∃ s ac s' ac', fromParser (PState.ofFacts fs) = some (s, ac) ∧ fromParser st = some (s', ac') ∧
+      Renamed (reindex (namesOf fs) ns') (reindex ns' (namesOf fs)) (ac.map (eval s)) (ac'.map (eval s')) ∧
+      SameLabelMaps (namesOf fs) ns' s ac s' ac' := by
+  obtain ⟨s', ac', h', w', l', v', _, r'⟩ := fromParser_presented fs hwf st ns' hp hP hn
+  cases h : fromParser (PState.ofFacts fs) with
+  | none => have := fromParser_isSome fs hwf; rw [h] at this; cases this
+  | some r =>
+    obtain ⟨w, l, v, d⟩ := fromParser_correct fs r.1 r.2 h hn
+    rw [← d] at r'
+    exact ⟨r.1, r.2, s', ac', rfl, h', r',
+      label_maps_of_renamed _ _ (namesOf_nodup fs) hp.symm r.1 s' r.2 ac' w w' l l' v v' r'⟩
+
+/-- **sorting** (`fromParser_resorted` + `answers_equivariant`): for a well-formed ADF `fs` and ANY
+permutation `ns'` of the declared names used as the new `namelist` (indices regenerated), the
+re-sorted parser object is built, and all label maps coincide with those of the unsorted one.
+No hypothesis on the number of conditions per statement. -/
+theorem resorted_label_maps (fs : List Fact) (hwf : WellFormedAdf fs) (ns' : List Label)
+    (hp : ns'.Perm (namesOf fs)) (hn : (namesOf fs).length ≤ VBOT) :
+    ∃ s ac s' ac', fromParser (PState.ofFacts fs) = some (s, ac) ∧
+      fromParser ((PState.ofFacts fs).resort ns') = some (s', ac') ∧
+      Renamed (reindex (namesOf fs) ns') (reindex ns' (namesOf fs)) (ac.map (eval s)) (ac'.map (eval s')) ∧
+      SameLabelMaps (namesOf fs) ns' s ac s' ac' :=
+  presented_label_maps fs hwf _ ns' hp (presents_resort (presents_ofFacts fs) ns' hp) hn
+
+/-- both sorting flags: `varsort_lexi` followed by a second sort (the CLI order) -/
+theorem sorted_twice_label_maps (le1 le2 : Label → Label → Bool) (fs : List Fact) (hwf : WellFormedAdf fs)
+    (hn : (namesOf fs).length ≤ VBOT) :
+    ∃ s ac s' ac', fromParser (PState.ofFacts fs) = some (s, ac) ∧
+      fromParser (((PState.ofFacts fs).sortBy le1).sortBy le2) = some (s', ac') ∧
+      SameLabelMaps (namesOf fs) (((PState.ofFacts fs).sortBy le1).sortBy le2).namelist s ac s' ac' := by
+  have h1 : (isort le1 (PState.ofFacts fs).namelist).Perm (namesOf fs) := by
+    rw [(ofFacts_spec fs).1]; exact isort_perm le1 _
+  have h2 : (isort le2 (isort le1 (PState.ofFacts fs).namelist)).Perm (namesOf fs) :=
+    (isort_perm le2 _).trans h1
+  obtain ⟨s, ac, s', ac', a, b, _, d⟩ :=
+    presented_label_maps fs hwf _ _ h2 (presents_resort_twice fs _ _ h1 h2) hn
+  exact ⟨s, ac, s', ac', a, b, d⟩
+
+/-- grounded interpretation, as a map from labels: the same before and after any re-sorting -/
+theorem grounded_label_map_invariant (fs : List Fact) (hwf : WellFormedAdf fs) (ns' : List Label)
+    (hp : ns'.Perm (namesOf fs)) (hn : (namesOf fs).length ≤ VBOT) (s s' : Store) (ac ac' : List Nat)
+    (h : fromParser (PState.ofFacts fs) = some (s, ac))
+    (h' : fromParser ((PState.ofFacts fs).resort ns') = some (s', ac')) :
+    labelled (namesOf fs) (groundedVec (namesOf fs).length s ac) = labelled ns' (groundedVec ns'.length s' ac') := by
+  obtain ⟨_, _, _, _, e, e', _, m⟩ := resorted_label_maps fs hwf ns' hp hn
+  rw [h] at e; rw [h'] at e'; cases e; cases e'
+  exact m.1
+
+/-- complete models, as a set of maps from labels -/
+theorem complete_label_maps_invariant (fs : List Fact) (hwf : WellFormedAdf fs) (ns' : List Label)
+    (hp : ns'.Perm (namesOf fs)) (hn : (namesOf fs).length ≤ VBOT) (s s' : Store) (ac ac' : List Nat)
+    (h : fromParser (PState.ofFacts fs) = some (s, ac))
+    (h' : fromParser ((PState.ofFacts fs).resort ns') = some (s', ac')) (m : Label → Option (Option Bool)) :
+    m ∈ (completeVecs (namesOf fs).length s ac).map (labelled (namesOf fs)) ↔
+      m ∈ (completeVecs ns'.length s' ac').map (labelled ns') := by
+  obtain ⟨_, _, _, _, e, e', _, M⟩ := resorted_label_maps fs hwf ns' hp hn
+  rw [h] at e; rw [h'] at e'; cases e; cases e'
+  exact M.2.1 m
+
+/-- stable models, as a set of maps from labels -/
+theorem stable_label_maps_invariant (fs : List Fact) (hwf : WellFormedAdf fs) (ns' : List Label)
+    (hp : ns'.Perm (namesOf fs)) (hn : (namesOf fs).length ≤ VBOT) (s s' : Store) (ac ac' : List Nat)
+    (h : fromParser (PState.ofFacts fs) = some (s, ac))
+    (h' : fromParser ((PState.ofFacts fs).resort ns') = some (s', ac')) (m : Label → Option (Option Bool)) :
+    m ∈ (stableVecs (namesOf fs).length s ac).map (labelled (namesOf fs)) ↔
+      m ∈ (stableVecs ns'.length s' ac').map (labelled ns') := by
+  obtain ⟨_, _, _, _, e, e', _, M⟩ := resorted_label_maps fs hwf ns' hp hn
+  rw [h] at e; rw [h'] at e'; cases e; cases e'
+  exact M.2.2.1 m
+
+/-- two-valued models (total complete interpretations), as a set of maps from labels -/
+theorem twovalued_label_maps_invariant (fs : List Fact) (hwf : WellFormedAdf fs) (ns' : List Label)
+    (hp : ns'.Perm (namesOf fs)) (hn : (namesOf fs).length ≤ VBOT) (s s' : Store) (ac ac' : List Nat)
+    (h : fromParser (PState.ofFacts fs) = some (s, ac))
+    (h' : fromParser ((PState.ofFacts fs).resort ns') = some (s', ac')) (m : Label → Option (Option Bool)) :
+    (∃ v ∈ completeVecs (namesOf fs).length s ac, TotalI v ∧ labelled (namesOf fs) v = m) ↔
+      (∃ v' ∈ completeVecs ns'.length s' ac', TotalI v' ∧ labelled ns' v' = m) := by
+  obtain ⟨_, _, _, _, e, e', _, M⟩ := resorted_label_maps fs hwf ns' hp hn
+  rw [h] at e; rw [h'] at e'; cases e; cases e'
+  exact M.2.2.2 m
+
+/-- instance: `varsort_lexi` (and `sortBy le` for every comparison function `le`) -/
+theorem sortBy_label_maps (le : Label → Label → Bool) (fs : List Fact) (hwf : WellFormedAdf fs)
+    (hn : (namesOf fs).length ≤ VBOT) :
+    ∃ s ac s' ac', fromParser (PState.ofFacts fs) = some (s, ac) ∧
+      fromParser ((PState.ofFacts fs).sortBy le) = some (s', ac') ∧
+      SameLabelMaps (namesOf fs) ((PState.ofFacts fs).sortBy le).namelist s ac s' ac' := by
+  have hp : (isort le (PState.ofFacts fs).namelist).Perm (namesOf fs) := by
+    rw [(ofFacts_spec fs).1]; exact isort_perm le _
+  obtain ⟨s, ac, s', ac', a, b, _, d⟩ := resorted_label_maps fs hwf _ hp hn
+  exact ⟨s, ac, s', ac', a, b, d⟩
+
+/-- instance: `varsort_alphanum`, whatever `natural_lexical_cmp` is (see `IsVarsortAlphanum`) -/
+theorem alphanum_label_maps (le : Label → Label → Bool) (fs : List Fact) (st' : PState)
+    (hs : IsVarsortAlphanum le (PState.ofFacts fs) st') (hwf : WellFormedAdf fs)
+    (hn : (namesOf fs).length ≤ VBOT) :
+    ∃ s ac s' ac', fromParser (PState.ofFacts fs) = some (s, ac) ∧ fromParser st' = some (s', ac') ∧
+      SameLabelMaps (namesOf fs) st'.namelist s ac s' ac' := by
+  have hp : st'.namelist.Perm (namesOf fs) := by
+    have := hs.perm
+    rwa [(ofFacts_spec fs).1] at this
+  obtain ⟨s, ac, s', ac', a, b, _, d⟩ := resorted_label_maps fs hwf _ hp hn
+  rw [← hs.state] at b
+  exact ⟨s, ac, s', ac', a, b, d⟩
+
+/-- **reordering the facts** (`fromParser_facts_perm` + `answers_equivariant`): two fact lists that
+are permutations of each other — `s(..)` facts included, so the statements may be numbered
+differently — are both built and have the same label maps. Hypotheses: well-formed, at most one
+condition per statement (without it the claim is false: the last condition wins, C09). -/
+theorem facts_permutation_invariant (fs gs : List Fact) (hp : fs.Perm gs)
+    (hone : ((acsOf fs).map (·.1)).Nodup) (hwf : WellFormedAdf fs) (hn : (namesOf fs).length ≤ VBOT) :
+    ∃ s ac s' ac', fromParser (PState.ofFacts fs) = some (s, ac) ∧
+      fromParser (PState.ofFacts gs) = some (s', ac') ∧
+      SameLabelMaps (namesOf fs) (namesOf gs) s ac s' ac' := by
+  obtain ⟨s, ac, s', ac', a, b, w, w', l, l', v, v', r⟩ := fromParser_facts_perm fs gs hp hone hwf hn
+  exact ⟨s, ac, s', ac', a, b,
+    label_maps_of_renamed _ _ (namesOf_nodup fs) (namesOf_perm hp) s s' ac ac' w w' l l' v v' r⟩
+
+/-- reordering the facts AND sorting afterwards (any permutation `ns'` of the names as new name list) -/
+theorem facts_permutation_then_sort_invariant (fs gs : List Fact) (hp : fs.Perm gs)
+    (hone : ((acsOf fs).map (·.1)).Nodup) (hwf : WellFormedAdf fs) (hn : (namesOf fs).length ≤ VBOT)
+    (ns' : List Label) (hns : ns'.Perm (namesOf gs)) :
+    ∃ s ac s' ac', fromParser (PState.ofFacts fs) = some (s, ac) ∧
+      fromParser ((PState.ofFacts gs).resort ns') = some (s', ac') ∧
+      SameLabelMaps (namesOf fs) ns' s ac s' ac' := by
+  have hnp := namesOf_perm hp
+  obtain ⟨s, ac, s1, ac1, a, b, w, w1, l, l1, v, v1, r⟩ := fromParser_facts_perm fs gs hp hone hwf hn
+  obtain ⟨s', ac', h', w', l', v', d', _⟩ :=
+    fromParser_resorted gs (wellFormed_perm hp hwf) ns' hns (by rw [← hnp.length_eq]; exact hn)
+  refine ⟨s, ac, s', ac', a, h', ?_⟩
+  have hp' : (namesOf fs).Perm ns' := hnp.trans hns.symm
+  apply label_maps_of_renamed _ _ (namesOf_nodup fs) hp' s s' ac ac' w w' l
+    (by rw [l', hnp.length_eq]) v v'
+  rw [(fromParser_correct fs s ac a hn).2.2.2, d', condFns_eq, ← condOf_perm hp hone]
+  exact renamed_condFnsOn (namesOf_nodup fs) hp' (condOf fs)
+
+/-- **consistent renaming**: for an injective relabelling `ρ` applied to every label of every fact,
+`from_parser` builds literally the same store and `ac` vector (so every answer vector is the same),
+the name list is the renamed name list, and reading any vector `v` with the new names gives at `ρ l`
+what the old names give at `l` (and nothing at labels that are not a new name) -/
+theorem renaming_invariant (ρ : Label → Label) (inj : ∀ a b, ρ a = ρ b → a = b) (fs : List Fact) :
+    fromParser (PState.ofFacts (fs.map (Fact.rename ρ))) = fromParser (PState.ofFacts fs) ∧
+    namesOf (fs.map (Fact.rename ρ)) = (namesOf fs).map ρ ∧
+    (∀ (v : I3) (l : Label), labelled (namesOf (fs.map (Fact.rename ρ))) v (ρ l) = labelled (namesOf fs) v l) ∧
+    (∀ (v : I3) (l' : Label), (∀ l ∈ namesOf fs, ρ l ≠ l') →
+      labelled (namesOf (fs.map (Fact.rename ρ))) v l' = none) := by
+  refine ⟨fromParser_rename ρ inj fs, namesOf_rename ρ inj fs, ?_, ?_⟩
+  · intro v l; rw [namesOf_rename ρ inj]; exact labelled_rename ρ inj _ v l
+  · intro v l' h; rw [namesOf_rename ρ inj]; exact labelled_rename_outside ρ _ v l' h
+
+/-- renaming AND sorting afterwards (the sort of the renamed names is in general a different
+permutation): the label maps correspond through `ρ` -/
+theorem renaming_then_sort_invariant (ρ : Label → Label) (inj : ∀ a b, ρ a = ρ b → a = b) (fs : List Fact)
+    (hwf : WellFormedAdf fs) (hn : (namesOf fs).length ≤ VBOT) (ns' : List Label)
+    (hns : ns'.Perm (namesOf (fs.map (Fact.rename ρ)))) :
+    ∃ s ac s' ac', fromParser (PState.ofFacts fs) = some (s, ac) ∧
+      fromParser ((PState.ofFacts (fs.map (Fact.rename ρ))).resort ns') = some (s', ac') ∧
+      (∀ l, labelled ns' (groundedVec ns'.length s' ac') (ρ l) =
+            labelled (namesOf fs) (groundedVec (namesOf fs).length s ac) l) ∧
+      (∀ m', m' ∈ (completeVecs ns'.length s' ac').map (labelled ns') →
+         (fun l => m' (ρ l)) ∈ (completeVecs (namesOf fs).length s ac).map (labelled (namesOf fs))) ∧
+      (∀ m, m ∈ (completeVecs (namesOf fs).length s ac).map (labelled (namesOf fs)) →
+         ∃ m' ∈ (completeVecs ns'.length s' ac').map (labelled ns'), ∀ l, m' (ρ l) = m l) ∧
+      (∀ m', m' ∈ (stableVecs ns'.length s' ac').map (labelled ns') →
+         (fun l => m' (ρ l)) ∈ (stableVecs (namesOf fs).length s ac).map (labelled (namesOf fs))) ∧
+      (∀ m, m ∈ (stableVecs (namesOf fs).length s ac).map (labelled (namesOf fs)) →
+         ∃ m' ∈ (stableVecs ns'.length s' ac').map (labelled ns'), ∀ l, m' (ρ l) = m l) := by
+  have hR := fromParser_rename ρ inj fs
+  have hN := namesOf_rename ρ inj fs
+  have hwf' : WellFormedAdf (fs.map (Fact.rename ρ)) :=
+    (fromParser_isSome_iff _).mp (by rw [hR]; exact fromParser_isSome fs hwf)
+  have hlen : (namesOf (fs.map (Fact.rename ρ))).length = (namesOf fs).length := by rw [hN, List.length_map]
+  obtain ⟨s, ac, s', ac', a, b, _, M⟩ := resorted_label_maps _ hwf' ns' hns (by rw [hlen]; exact hn)
+  rw [hR] at a
+  unfold SameLabelMaps at M
+  rw [hlen] at M
+  have key : ∀ v : I3, (fun l => labelled (namesOf (fs.map (Fact.rename ρ))) v (ρ l)) = labelled (namesOf fs) v := by
+    intro v; funext l; rw [hN]; exact labelled_rename ρ inj _ v l
+  refine ⟨s, ac, s', ac', a, b, ?_, ?_, ?_, ?_, ?_⟩
+  · intro l
+    rw [← M.1, ← key]
+  · intro m' hm'
+    obtain ⟨v, hv, e⟩ := List.mem_map.mp ((M.2.1 m').mpr hm')
+    exact List.mem_map.mpr ⟨v, hv, by rw [← key, e]⟩
+  · intro m hm
+    obtain ⟨v, hv, e⟩ := List.mem_map.mp hm
+    refine ⟨_, (M.2.1 _).mp (List.mem_map.mpr ⟨v, hv, rfl⟩), ?_⟩
+    intro l; rw [← e, ← key]
+  · intro m' hm'
+    obtain ⟨v, hv, e⟩ := List.mem_map.mp ((M.2.2.1 m').mpr hm')
+    exact List.mem_map.mpr ⟨v, hv, by rw [← key, e]⟩
+  · intro m hm
+    obtain ⟨v, hv, e⟩ := List.mem_map.mp hm
+    refine ⟨_, (M.2.2.1 _).mp (List.mem_map.mpr ⟨v, hv, rfl⟩), ?_⟩
+    intro l; rw [← e, ← key]
+
+/-- **from two texts**: two texts of the documented format whose facts are permutations of each other
+(`gs = fs`: the same facts laid out differently — whitespace; in general: facts reordered) are both
+accepted and built, and have the same label maps -/
+theorem texts_invariant (t t' : List Char) (fs gs : List Fact) (hd : DerFile fs t) (hd' : DerFile gs t')
+    (hne : fs ≠ []) (hp : fs.Perm gs) (hone : ((acsOf fs).map (·.1)).Nodup) (hwf : WellFormedAdf fs)
+    (hn : (namesOf fs).length ≤ VBOT) :
+    ∃ st st' s ac s' ac', parse t = some st ∧ parse t' = some st' ∧
+      fromParser st = some (s, ac) ∧ fromParser st' = some (s', ac') ∧
+      SameLabelMaps st.namelist st'.namelist s ac s' ac' := by
+  have hne' : gs ≠ [] := fun e => hne (by rw [e] at hp; exact hp.eq_nil)
+  have p1 : parse t = some (PState.ofFacts fs) := by rw [parse_eq, parseFacts_complete fs t hd hne]; rfl
+  have p2 : parse t' = some (PState.ofFacts gs) := by rw [parse_eq, parseFacts_complete gs t' hd' hne']; rfl
+  obtain ⟨s, ac, s', ac', a, b, m⟩ := facts_permutation_invariant fs gs hp hone hwf hn
+  refine ⟨_, _, s, ac, s', ac', p1, p2, a, b, ?_⟩
+  rw [(ofFacts_spec fs).1, (ofFacts_spec gs).1]
+  exact m
+
+/-- **lexicographic sorting reports in byte-wise label order**: after `varsort_lexi` the name list is
+a permutation of the declared names in STRICTLY ascending byte order of the UTF-8 encodings (the `Ord`
+of Rust's `String`; `byteLt_eq_cpLt`: the same as comparing the sequences of code points), the
+dictionary sends every label `l` to `k` = the number of declared labels byte-wise below `l`, and
+entry `k` of every vector is the value reported for `l`: position `k` belongs to the `k`-th smallest
+label (counting from 0) -/
+theorem lexi_reports_bytewise_order (fs : List Fact) :
+    (varsortLexi (PState.ofFacts fs)).namelist.Perm (namesOf fs) ∧
+    (varsortLexi (PState.ofFacts fs)).namelist.Pairwise (fun a b => byteLt a b = true) ∧
+    (∀ a b : Label, byteLt a b = cpLt a b) ∧
+    ∀ l ∈ namesOf fs,
+      (varsortLexi (PState.ofFacts fs)).namelist[((namesOf fs).filter (fun x => byteLt x l)).length]? = some l ∧
+      (varsortLexi (PState.ofFacts fs)).dictValue l = some ((namesOf fs).filter (fun x => byteLt x l)).length ∧
+      ∀ v : I3, labelled (varsortLexi (PState.ofFacts fs)).namelist v l =
+        v[((namesOf fs).filter (fun x => byteLt x l)).length]? := by
+  have e : (varsortLexi (PState.ofFacts fs)).namelist = isort byteLe (namesOf fs) := by
+    show isort byteLe (PState.ofFacts fs).namelist = _
+    rw [(ofFacts_spec fs).1]
+  have hp : (isort byteLe (namesOf fs)).Perm (namesOf fs) := isort_perm _ _
+  have hs := isort_byteLe_strict (namesOf fs) (namesOf_nodup fs)
+  rw [e]
+  refine ⟨hp, hs, byteLt_eq_cpLt, ?_⟩
+  intro l hl
+  have hi := indexOf_sorted_count byteLt byteLt_irrefl byteLt_asymm _ hs l (hp.mem_iff.mpr hl)
+  rw [(hp.filter _).length_eq] at hi
+  refine ⟨indexOf_get _ _ _ hi, ?_, ?_⟩
+  · have := (presents_resort (presents_ofFacts fs) _ hp).dict l
+    rw [← hi]
+    show dictGet ((PState.ofFacts fs).resort (isort byteLe (PState.ofFacts fs).namelist)).dict l = _
+    rw [(ofFacts_spec fs).1]
+    exact this
+  · intro v
+    unfold labelled
+    rw [hi]; rfl
+
+/-! ### non-vacuity: labels on which byte order and natural order differ -/
+
+/-- `s(b). s(a9). s(10). s(B). s(a10). s(9).` with `ac(b, a9). ac(a9, neg(a9)). ac(10, c(v)). ac(B, and(10, b)).
+ac(a10, neg(9)). ac(9, neg(a10)).` -/
+def exFs : List Fact :=
+  [.stmt ['b'], .stmt ['a','9'], .stmt ['1','0'], .stmt ['B'], .stmt ['a','1','0'], .stmt ['9'],
+   .ac ['b'] (.atom ['a','9']), .ac ['a','9'] (.not (.atom ['a','9'])), .ac ['1','0'] .top,
+   .ac ['B'] (.and (.atom ['1','0']) (.atom ['b'])), .ac ['a','1','0'] (.not (.atom ['9'])),
+   .ac ['9'] (.not (.atom ['a','1','0']))]
+
+/-- the same facts in another order (declarations last, conditions shuffled) -/
+def exGs : List Fact :=
+  [.ac ['9'] (.not (.atom ['a','1','0'])), .ac ['B'] (.and (.atom ['1','0']) (.atom ['b'])),
+   .ac ['a','9'] (.not (.atom ['a','9'])), .ac ['b'] (.atom ['a','9']), .ac ['1','0'] .top,
+   .ac ['a','1','0'] (.not (.atom ['9'])),
+   .stmt ['9'], .stmt ['a','1','0'], .stmt ['B'], .stmt ['1','0'], .stmt ['a','9'], .stmt ['b']]
+
+/-- byte order: `10 < 9 < B < a10 < a9 < b` (the natural order would be `9 < 10 < a9 < a10 < b, B`) -/
+theorem exFs_lexi : (varsortLexi (PState.ofFacts exFs)).namelist =
+    [['1','0'], ['9'], ['B'], ['a','1','0'], ['a','9'], ['b']] := by decide
+
+theorem exFs_lexi_dict : (varsortLexi (PState.ofFacts exFs)).formulaOrder = some [5, 4, 0, 2, 3, 1] := by decide
+
+/-- a sort in the natural order is another instance of `resort`; here with the expected result of
+`natural_lexical_cmp` written down -/
+def exNatural : List Label := [['9'], ['1','0'], ['a','9'], ['a','1','0'], ['b'], ['B']]
+
+theorem exNatural_perm : exNatural.Perm (namesOf exFs) := by decide
+theorem exFs_wf : WellFormedAdf exFs := by decide
+theorem exFs_one : ((acsOf exFs).map (·.1)).Nodup := by decide
+theorem exFs_perm : exFs.Perm exGs := by decide
+theorem exFs_names_differ : namesOf exFs ≠ namesOf exGs := by decide
+
+#guard (varsortLexi (PState.ofFacts exFs)).namelist.map String.ofList == ["10", "9", "B", "a10", "a9", "b"]
+#guard (fromParser (varsortLexi (PState.ofFacts exFs))).isSome
+#guard (fromParser ((PState.ofFacts exFs).resort exNatural)).isSome
+-- the model's byte order is the `<` of Lean's (UTF-8) strings, also beyond ASCII
+#guard [("10", "9"), ("9", "B"), ("B", "a10"), ("a10", "a9"), ("a9", "b"), ("z", "ä"), ("ä", "€"), ("€", "😀"),
+  ("", "a"), ("a", "aa")].all fun (a, b) => byteLt a.toList b.toList && !byteLt b.toList a.toList && decide (a < b)
+#guard [0x24, 0x7f, 0x80, 0xe4, 0x7ff, 0x800, 0x20ac, 0xffff, 0x10000, 0x1f600, 0x10ffff].all fun n =>
+  (String.utf8EncodeChar (Char.ofNat n)).map UInt8.toNat == utf8Nat n
+
+/-- the theorems apply to the example: unsorted, byte-sorted, naturally sorted and reordered facts
+all have the same label maps -/
+example : ∃ s ac s' ac', fromParser (PState.ofFacts exFs) = some (s, ac) ∧
+    fromParser (varsortLexi (PState.ofFacts exFs)) = some (s', ac') ∧
+    SameLabelMaps (namesOf exFs) (varsortLexi (PState.ofFacts exFs)).namelist s ac s' ac' :=
+  sortBy_label_maps byteLe exFs exFs_wf (by decide)
+
+example : ∃ s ac s' ac', fromParser (PState.ofFacts exFs) = some (s, ac) ∧
+    fromParser ((PState.ofFacts exFs).resort exNatural) = some (s', ac') ∧
+    Renamed (reindex (namesOf exFs) exNatural) (reindex exNatural (namesOf exFs))
+      (ac.map (eval s)) (ac'.map (eval s')) ∧
+    SameLabelMaps (namesOf exFs) exNatural s ac s' ac' :=
+  resorted_label_maps exFs exFs_wf exNatural exNatural_perm (by decide)
+
+example : ∃ s ac s' ac', fromParser (PState.ofFacts exFs) = some (s, ac) ∧
+    fromParser (PState.ofFacts exGs) = some (s', ac') ∧
+    SameLabelMaps (namesOf exFs) (namesOf exGs) s ac s' ac' :=
+  facts_permutation_invariant exFs exGs exFs_perm exFs_one exFs_wf (by decide)
+
+/-- the renumbering of the example is a proper one -/
+example : (List.range 6).map (reindex (namesOf exFs) (varsortLexi (PState.ofFacts exFs)).namelist) =
+    [5, 4, 0, 2, 3, 1] := by decide
+
+/-- without "at most one condition per statement" reordering the facts is NOT harmless -/
+example : condOf [.stmt ['a'], .ac ['a'] .top, .ac ['a'] .bot] ['a'] ≠
+    condOf [.stmt ['a'], .ac ['a'] .bot, .ac ['a'] .top] ['a'] := by decide
+
+#print axioms resorted_label_maps
+#print axioms sorted_twice_label_maps
+#print axioms texts_invariant
+#print axioms grounded_label_map_invariant
+#print axioms complete_label_maps_invariant
+#print axioms stable_label_maps_invariant
+#print axioms twovalued_label_maps_invariant
+#print axioms sortBy_label_maps
+#print axioms alphanum_label_maps
+#print axioms facts_permutation_invariant
+#print axioms facts_permutation_then_sort_invariant
+#print axioms renaming_invariant
+#print axioms renaming_then_sort_invariant
+#print axioms lexi_reports_bytewise_order
+#print axioms exFs_lexi
 
 end C10
